@@ -228,7 +228,11 @@ func vSNAPInit(il bool, zc int) *chunkInit {
 	init.numOutboundStreams, init.numInboundStreams = 65535, 65535
 	init.initiateTag = 1 + nondetU32()%0xfffffffe
 	init.advertisedReceiverWindowCredit = 2048 + uint32(nondetU16())*16 // each side advertises its own window
-	setSupportedExtensions(&init.chunkInitCommon, il)
+	split := 0
+	if il {
+		split = vPick(3) // one parameter, or the list spread over two
+	}
+	vSetSupportedExtensionsSplit(&init.chunkInitCommon, il, split)
 	switch zc {
 	case 1:
 		init.params = append(init.params, &paramZeroChecksumAcceptable{edmid: dtlsErrorDetectionMethod})
